@@ -34,6 +34,47 @@
 (*  - C10 Access "the value that was current when Access last looked": a value returned by    *)
 (*    the resolver, not yet released and not invalidated-and-processed when the current       *)
 (*    look window (from the call / the previous callback return) started, or returned since.  *)
+(*                                                                                          *)
+(* Equal values (T comparable).  A GENERATION is a resolver call n; its VALUE is what the     *)
+(* trace can observe: the raw value raw[n] told on the `leave` event (0: the zero value of T). *)
+(* Two generations may carry equal raw values (a resolver handing out a singleton / a cached   *)
+(* object).  Release funcs, released() handles, resolver enter/leave and errors identify their *)
+(* generation exactly; every observed VALUE (reference callbacks, Wait/Resolve returns, Access *)
+(* callback argument, target container contents) only identifies the SET of generations that  *)
+(* carry it and can have been meant (Cand).  Rule for every consumer of such an observation:   *)
+(*   PERMISSION  -- granted if some candidate permits it (favourable choice);                  *)
+(*   OBLIGATION  -- asserted only if every candidate implies it (a singleton set in particular).*)
+(* A candidate under which an obligation is already broken is struck off (the remaining        *)
+(* candidates carry on); a condition is reported when no candidate is left.  Where candidates  *)
+(* are struck off because of another condition, that condition belongs to the same property   *)
+(* (C08: gl / ever; C10: cand), so a report never rests on a violation of a different property.*)
+(* Observations are judged independently of each other (two references told in one critical   *)
+(* section are not correlated): weaker, never stronger.  Per observation:                     *)
+(*  cb(ref,true,v,nil)  gc = generations with raw v returned so far.  BadDelivery: gc empty.   *)
+(*                      gl = those of gc not yet released (C08 candidates); ExposedAfterRel:   *)
+(*                      gc non-empty, gl empty.  `ever` (certainly given) grows only by a      *)
+(*                      singleton gl.  RelUntold at rel(n): last told value has gl = {n}; if n *)
+(*                      is one of several it is struck off gl.  StaleKept: gc all invalidated. *)
+(*                      Delivered (as an obligation: NotResolved): last told raw[N] with N in gc.*)
+(*  ret ok v (Wait..)   cand = generations with raw v returned so far; WaitBadValue: empty.    *)
+(*                      A candidate released while the reference is held and not invalidated   *)
+(*                      is struck off; HeldRel when none is left.  must (released callback     *)
+(*                      owed): every candidate is invalidated-and-processed; at a quiescent    *)
+(*                      point candidates that are invalidated while the callback has not fired *)
+(*                      are struck off (RelCbMissing when none is left).  SureHeld: no         *)
+(*                      candidate invalidated.                                                 *)
+(*  cbenter v (Access)  cbc = generations of the look window (`win`: published before the      *)
+(*                      callback was entered) with raw v; AccessWrongVal: empty.  The          *)
+(*                      invocation is stale (its result must not be returned) / its context    *)
+(*                      must be cancelled only if EVERY generation in cbc is invalidated.  An  *)
+(*                      equal replacement published after cbenter is not in cbc: returning the *)
+(*                      result of that invocation is AccessStaleResult (the ABA case).         *)
+(*  tgt at rel(n)       RelExposed only if n is the only not-yet-released generation with that *)
+(*                      raw value (the container may hold an equal value of another one).      *)
+(*  tgt at quiet        ExposedAfterRel: every generation with that raw value is released;     *)
+(*                      StaleKept: every one is invalidated; Delivered: tgt = raw[N].          *)
+(*  Delivered as a PREMISE (WaitStuck / AccessIdle: a consumer is blocked although ...) needs  *)
+(*  the unambiguous reading: N is the only candidate of tgt and of every last-told value.      *)
 EXTENDS Integers, FiniteSets, Sequences, TLC
 
 VARIABLE ps
@@ -44,6 +85,7 @@ NoG == [r |-> FALSE, v |-> 0, e |-> 0]
 P0 == [keep |-> FALSE, pctx |-> 0,
        rs |-> <<>>,      \* resolver call n -> "active" | "val" | "valr" | "err" | "errr"  (r: with release func)
        relc |-> <<>>,    \* resolver call n -> number of invocations of its release func
+       raw |-> <<>>,     \* resolver call n -> the raw value it returned (its own number unless told otherwise; 0: zero value of T)
        inv |-> {}, invd |-> {},   \* invalidated calls / invalidated and certainly processed
        \* A context change takes effect in some critical section between the call's logged start and its
        \* logged return (pend: such calls in progress).  Resolver calls that exist at the start are
@@ -52,7 +94,10 @@ P0 == [keep |-> FALSE, pctx |-> 0,
        \* demanded of it, and its release while held is not held against the code.
        minv |-> {}, pend |-> <<>>,
        due |-> {},       \* calls whose release func (if any) must have run by the next quiescent point
-       refs |-> <<>>,    \* plain reference id -> [st, cb, g, ever]
+       \* g: what the callback was last told (v: RAW value); gc: the generations that v can stand for
+       \* (returned by then); gl: those of gc not struck off for C08 (not released); ever: generations
+       \* the reference was certainly given
+       refs |-> <<>>,    \* plain reference id -> [st, cb, g, gc, gl, ever]
        cons |-> <<>>,    \* consumer call id -> record (Wait, Resolve, ResolveWithReleased, Access)
        zero |-> {},      \* resolver calls whose value is the zero value of T (the target container cannot tell it from "empty")
        panicked |-> FALSE,
@@ -79,8 +124,15 @@ PlainHeld(s) == {r \in DOMAIN s.refs : s.refs[r].st = "held"}
 ConsOpen(s) == {c \in DOMAIN s.cons : s.cons[c].st = "open"}
 ConsOk(s) == {c \in DOMAIN s.cons : s.cons[c].st = "ok"}
 PossiblyHeld(s) == PlainHeld(s) \cup ConsOpen(s) \cup ConsOk(s)
+\* (a ResolveWithReleased reference certainly still exists only if NO generation its value can
+\* stand for was invalidated)
 SureHeld(s) == PlainHeld(s) \cup ConsOpen(s)
-               \cup {c \in ConsOk(s) : s.cons[c].kind # "resolvewr" \/ s.cons[c].val \notin (s.inv \cup s.minv)}
+               \cup {c \in ConsOk(s) : s.cons[c].kind # "resolvewr" \/ s.cons[c].cand \cap (s.inv \cup s.minv) = {}}
+
+\* the generations an observed raw value v can stand for: value-returning calls (returned so far)
+\* that carry it.  v = 0 (zero value of T) only where the observation certainly is a resolved value.
+Cand(s, v) == {n \in Calls(s) : IsVal(s, n) /\ s.raw[n] = v}
+RawOf(s, n) == IF n \in Calls(s) THEN s.raw[n] ELSE n
 
 \* values Access may legitimately be looking at when a look window starts
 Window(s) == {n \in Calls(s) : IsVal(s, n) /\ s.relc[n] = 0 /\ n \notin s.invd}
@@ -93,15 +145,28 @@ LastDropped(s) ==
     ELSE s
 
 \* the released callback of a ResolveWithReleased call must fire once its value was invalidated
-\* (and the invalidation processed) while the caller still held the reference
+\* (and the invalidation processed) while the caller still held the reference: an obligation, so
+\* every generation the returned value can stand for must be invalidated-and-processed
 Must(s) ==
     [s EXCEPT !.cons = [c \in DOMAIN s.cons |->
-        IF s.cons[c].st = "ok" /\ s.cons[c].kind = "resolvewr" /\ s.cons[c].cb /\ s.cons[c].val \in s.invd
+        IF s.cons[c].st = "ok" /\ s.cons[c].kind = "resolvewr" /\ s.cons[c].cb
+           /\ s.cons[c].cand # {} /\ s.cons[c].cand \subseteq s.invd
         THEN [s.cons[c] EXCEPT !.must = TRUE] ELSE s.cons[c]]]
 
+\* "not released while the caller holds the reference, unless invalidated": a candidate generation
+\* that has been released without having been invalidated is struck off; HeldRel when none is left
+Refuted(s, n) == s.relc[n] >= 1 /\ n \notin (s.inv \cup s.minv)
+Prune(s) ==
+    LET hit == {c \in ConsOk(s) : s.cons[c].cand # {} /\ \A n \in s.cons[c].cand : Refuted(s, n)} IN
+    Bad([s EXCEPT !.cons = [c \in DOMAIN s.cons |->
+            IF c \in ConsOk(s) THEN [s.cons[c] EXCEPT !.cand = {n \in @ : ~Refuted(s, n)}] ELSE s.cons[c]]],
+        If(hit # {}, {"HeldRel"}))
+
 NewCons(kind, cb) ==
-    [kind |-> kind, st |-> "open", cb |-> cb, val |-> 0, relcb |-> 0, must |-> FALSE, canc |-> FALSE,
-     k |-> 0, incb |-> FALSE, cbval |-> 0, stale |-> FALSE, lastout |-> "", win |-> {}]
+    \* val: raw value returned (Wait..), cand: generations it can still stand for; cbval: raw value the
+    \* Access callback was entered with, cbc: generations of the look window it can stand for
+    [kind |-> kind, st |-> "open", cb |-> cb, val |-> 0, cand |-> {}, relcb |-> 0, must |-> FALSE, canc |-> FALSE,
+     k |-> 0, incb |-> FALSE, cbval |-> 0, cbc |-> {}, stale |-> FALSE, lastout |-> "", win |-> {}]
 
 -----------------------------------------------------------------------------
 (* Events *)
@@ -111,7 +176,7 @@ PCfg(s, keep) == [s EXCEPT !.keep = keep]
 \* A client call starts.  ref: the reference created (addref, consumers: = id) or released.
 PCallOp(s, id, op, cb, ref, k) ==
     CASE op = "addref" ->
-           Bad([s EXCEPT !.refs = (id :> [st |-> "held", cb |-> (cb # "nil"), g |-> NoG, ever |-> {}]) @@ @],
+           Bad([s EXCEPT !.refs = (id :> [st |-> "held", cb |-> (cb # "nil"), g |-> NoG, gc |-> {}, gl |-> {}, ever |-> {}]) @@ @],
                If(id \in DOMAIN s.refs \/ id \in DOMAIN s.cons, {"Harness:id"}))
       [] op = "release" ->
            IF ref \in DOMAIN s.refs
@@ -150,8 +215,10 @@ PRet(s, id, res, val, err) ==
             \cup If(res = "canceled" /\ ~c.canc, {"SpuriousCancel"})
             \cup If(res \notin {"nil", "cberr", "err", "canceled"}, {"AccessBadResult"})))
     ELSE IF res = "ok"
-    THEN Must(Bad([s EXCEPT !.cons[id].st = "ok", !.cons[id].val = val],
-            If(~IsVal(s, val), {"WaitBadValue"})))
+    THEN \* val: raw value; it can stand for every value-returning generation carrying it (the statement
+         \* does not forbid returning a value that was invalidated meanwhile)
+         Must(Prune(Bad([s EXCEPT !.cons[id].st = "ok", !.cons[id].val = val, !.cons[id].cand = Cand(s, val)],
+            If(Cand(s, val) = {}, {"WaitBadValue"}))))
     ELSE LastDropped(Bad([s EXCEPT !.cons[id].st = "done"],
             If(res = "err" /\ ~IsErr(s, err), {"WaitBadResult"})
             \cup If(res = "canceled" /\ ~c.canc, {"SpuriousCancel"})
@@ -161,37 +228,59 @@ PPanic(s, id) == Bad([s EXCEPT !.panicked = TRUE], {"Panic"})
 
 \* The harness-owned resolver is entered for the n-th time / returns.
 PEnter(s, n) ==
-    Bad([s EXCEPT !.rs = Append(@, "active"), !.relc = Append(@, 0),
+    Bad([s EXCEPT !.rs = Append(@, "active"), !.relc = Append(@, 0), !.raw = Append(@, n),
                   !.minv = IF DOMAIN s.pend # {} THEN @ \cup {n} ELSE @],
         If(n # Len(s.rs) + 1, {"Harness:enter"}))
 
-PLeaveZ(s, n, out, rel, zero) ==
+\* raw: the value returned (meaningful for out = "val"): n itself, or the raw value of an earlier
+\* generation (an equal value), or 0 (the zero value of T)
+PLeaveR(s, n, out, rel, raw) ==
     IF n \notin Calls(s) \/ s.rs[n] # "active" THEN Bad(s, {"Harness:leave"})
     ELSE LET s2 == [s EXCEPT !.rs[n] = IF out = "val" THEN (IF rel THEN "valr" ELSE "val")
                                         ELSE (IF rel THEN "errr" ELSE "err"),
-                             !.zero = IF zero THEN @ \cup {n} ELSE @]
+                             !.raw[n] = IF out = "val" THEN raw ELSE n,
+                             !.zero = IF out = "val" /\ raw = 0 THEN @ \cup {n} ELSE @]
          IN [s2 EXCEPT !.cons = [c \in DOMAIN s2.cons |->
                 IF s2.cons[c].kind = "access" /\ s2.cons[c].st = "open" /\ out = "val" /\ n \notin s2.invd
                 THEN [s2.cons[c] EXCEPT !.win = @ \cup {n}] ELSE s2.cons[c]]]
 
-PLeave(s, n, out, rel) == PLeaveZ(s, n, out, rel, FALSE)
+PLeaveZ(s, n, out, rel, zero) == PLeaveR(s, n, out, rel, IF zero THEN 0 ELSE n)
+PLeave(s, n, out, rel) == PLeaveR(s, n, out, rel, n)
 
-\* The callback of plain reference `ref` is invoked with (res, v, e).
+\* The callback of plain reference `ref` is invoked with (res, v, e); v: RAW value.
 PCbk(s, ref, res, v, e) ==
     IF ref \notin DOMAIN s.refs THEN Bad(s, {"Harness:cb"})
-    ELSE LET n == IF v # 0 THEN v ELSE e IN
-         Bad([s EXCEPT !.refs[ref].g = [r |-> res, v |-> v, e |-> e],
-                       !.refs[ref].ever = @ \cup (IF res /\ n > 0 THEN {n} ELSE {})],
-             If(res /\ ~((v > 0 /\ e = 0 /\ IsVal(s, v)) \/ (v = 0 /\ e > 0 /\ IsErr(s, e))), {"BadDelivery"})
-             \cup If(res /\ n \in Calls(s) /\ s.relc[n] >= 1, {"ExposedAfterRel"}))
+    ELSE LET isv == res /\ e = 0
+             gc == IF isv THEN Cand(s, v) ELSE {}          \* generations the value can stand for
+             gl == {n \in gc : s.relc[n] = 0}              \* ... favourable for C08: not released yet
+             okerr == res /\ v = 0 /\ e > 0 /\ IsErr(s, e)
+         IN
+         \* `ever`: a singleton gl -- under every other candidate the delivery itself is ExposedAfterRel
+         \* (same property, C08), so what is later held against the code for "given gl" is a C08 violation
+         \* under every candidate.  An error identifies its generation.
+         Bad([s EXCEPT !.refs[ref].g = [r |-> res, v |-> v, e |-> e], !.refs[ref].gc = gc, !.refs[ref].gl = gl,
+                       !.refs[ref].ever = @ \cup (IF Cardinality(gl) = 1 THEN gl ELSE {})
+                                            \cup (IF res /\ e > 0 THEN {e} ELSE {})],
+             If(res /\ ~((isv /\ gc # {}) \/ okerr), {"BadDelivery"})
+             \cup If(isv /\ gc # {} /\ gl = {}, {"ExposedAfterRel"})
+             \cup If(res /\ e > 0 /\ e \in Calls(s) /\ s.relc[e] >= 1, {"ExposedAfterRel"}))
 
-\* The release func returned by resolver call n runs; tgt = target.GetValue() read inside it.
+\* The release func returned by resolver call n runs; tgt = target.GetValue() (RAW) read inside it.
 PRel(s, n, tgt) ==
     IF ~HasRel(s, n) THEN Bad(s, {"Harness:rel"})
-    ELSE Bad([s EXCEPT !.relc[n] = @ + 1],
+    ELSE LET \* references whose last-told value can stand for n
+             told == {r \in PlainHeld(s) : s.refs[r].g.r /\ s.refs[r].g.e = 0 /\ n \in s.refs[r].gl}
+             \* the generations the container's value can stand for: n, or another one not yet released
+             tc == IF tgt = 0 THEN {} ELSE {m \in Cand(s, tgt) : m = n \/ s.relc[m] = 0}
+             s1 == [s EXCEPT !.relc[n] = @ + 1,
+                             \* n was one of several the last-told value can stand for: it was another one
+                             !.refs = [r \in DOMAIN s.refs |->
+                                 IF r \in told /\ s.refs[r].gl # {n} THEN [s.refs[r] EXCEPT !.gl = @ \ {n}] ELSE s.refs[r]]]
+         IN Prune(Bad(s1,
              If(\E r \in PlainHeld(s) : n \in s.refs[r].ever /\ n \notin (s.inv \cup s.minv), {"RelWhileHeld"})
-             \cup If(\E r \in PlainHeld(s) : s.refs[r].g.r /\ (s.refs[r].g.v = n \/ s.refs[r].g.e = n), {"RelUntold"})
-             \cup If(tgt = n, {"RelExposed"}))
+             \cup If(\E r \in told : s.refs[r].gl = {n}, {"RelUntold"})
+             \cup If(\E r \in PlainHeld(s) : s.refs[r].g.r /\ s.refs[r].g.e = n, {"RelUntold"})
+             \cup If(tc = {n}, {"RelExposed"})))
 
 \* The released() handle given to resolver call n is called (inside: from a reference callback,
 \* i.e. under the RefCount's own lock).
@@ -208,15 +297,22 @@ PRelCb(s, id) ==
 \* Access call id enters / leaves its k-th callback invocation.
 PCbEnter(s, id, k, v) ==
     IF id \notin DOMAIN s.cons \/ s.cons[id].st # "open" THEN Bad(s, {"Harness:cbenter"})
-    ELSE LET c == s.cons[id] IN
-         Bad([s EXCEPT !.cons[id].k = k, !.cons[id].incb = TRUE, !.cons[id].cbval = v, !.cons[id].stale = FALSE],
+    ELSE LET c == s.cons[id]
+             \* v: RAW value.  The generations Access can have been looking at: those of the look window
+             \* (published before this callback was entered) that carry v
+             cbc == {n \in c.win : RawOf(s, n) = v}
+         IN
+         Bad([s EXCEPT !.cons[id].k = k, !.cons[id].incb = TRUE, !.cons[id].cbval = v, !.cons[id].cbc = cbc,
+                       !.cons[id].stale = FALSE],
              If(k # c.k + 1 \/ c.incb, {"Harness:cbenter"})
-             \cup If(v \notin c.win, {"AccessWrongVal"}))
+             \cup If(cbc = {}, {"AccessWrongVal"}))
 
 PCbLeave(s, id, k, out) ==
     IF id \notin DOMAIN s.cons \/ ~s.cons[id].incb \/ s.cons[id].k # k THEN Bad(s, {"Harness:cbleave"})
     ELSE [s EXCEPT !.cons[id].incb = FALSE, !.cons[id].lastout = out,
-                   !.cons[id].stale = (s.cons[id].cbval \in s.invd),
+                   \* its result must not be returned: an obligation, so EVERY generation the value it was
+                   \* entered with can stand for must have been invalidated (and the invalidation processed)
+                   !.cons[id].stale = (s.cons[id].cbc # {} /\ s.cons[id].cbc \subseteq s.invd),
                    !.cons[id].win = Window(s)]
 
 \* The caller context of consumer call id is cancelled.
@@ -235,31 +331,52 @@ PLeak(s) == IF s.panicked THEN s ELSE Bad(s, {"Harness:leak"})
 (* done; open: AddRef/Release/SetContext calls that have not returned.                        *)
 
 \* the result of the resolver call entered last is what the containers and every held
-\* reference with a callback were last told
+\* reference with a callback were last told.  tgt and the told values are RAW: as an obligation
+\* (NotResolved when it fails) it is enough that they CAN stand for N (N in gc: N had returned when
+\* the value was told -- nothing can be delivered before it exists).
 Delivered(s, tgt, tgterr) ==
     LET N == Len(s.rs) IN
     /\ N >= 1 /\ Returned(s, N) /\ N \notin s.inv
-    /\ IsVal(s, N) => (tgt = N \/ (N \in s.zero /\ tgt = 0)) /\ tgterr = 0
+    /\ IsVal(s, N) => tgt = s.raw[N] /\ tgterr = 0          \* (a zero-valued N: raw = 0 = "empty")
     /\ IsErr(s, N) => tgterr = N /\ tgt = 0
     /\ \A r \in PlainHeld(s) : s.refs[r].cb =>
-          s.refs[r].g = [r |-> TRUE, v |-> IF IsVal(s, N) THEN N ELSE 0, e |-> IF IsErr(s, N) THEN N ELSE 0]
+          /\ s.refs[r].g.r
+          /\ IsVal(s, N) => s.refs[r].g.e = 0 /\ s.refs[r].g.v = s.raw[N] /\ N \in s.refs[r].gc
+          /\ IsErr(s, N) => s.refs[r].g.e = N /\ s.refs[r].g.v = 0
+
+\* ... as a PREMISE (a consumer is blocked although the latest result was delivered): N must be the
+\* only generation the observations can stand for
+DeliveredSure(s, tgt, tgterr) ==
+    LET N == Len(s.rs) IN
+    /\ Delivered(s, tgt, tgterr)
+    /\ IsVal(s, N) => /\ Cand(s, s.raw[N]) = {N}
+                       /\ \A r \in PlainHeld(s) : s.refs[r].cb => s.refs[r].gc = {N}
+
+\* generations the container's (RAW) value can stand for at a quiescent point
+TgtCand(s, tgt) == IF tgt = 0 THEN {} ELSE Cand(s, tgt)
 
 QuietBad(s, tgt, tgterr, act, blk, incb, cbdone, open) ==
     If(act # Active(s), {"Harness:act"})
     \cup If(~(blk \subseteq ConsOpen(s)) \/ ~(incb \subseteq ConsOpen(s)), {"Harness:blk"})
     \* C08
     \cup If(\E n \in s.due : Returned(s, n) /\ HasRel(s, n) /\ s.relc[n] = 0, {"Leak"})
-    \cup If(tgt \in Calls(s) /\ s.relc[tgt] >= 1, {"ExposedAfterRel"})
+    \cup If(TgtCand(s, tgt) # {} /\ \A n \in TgtCand(s, tgt) : s.relc[n] >= 1, {"ExposedAfterRel"})
     \* C09
     \cup If(s.pctx # 0 /\ SureHeld(s) # {} /\ Active(s) = {} /\ ~Delivered(s, tgt, tgterr), {"NotResolved"})
-    \cup If(\E n \in s.inv : \/ tgt = n \/ tgterr = n
-                             \/ \E r \in PlainHeld(s) : s.refs[r].g.r /\ (s.refs[r].g.v = n \/ s.refs[r].g.e = n),
+    \* (an obligation: every generation the kept value can stand for is invalidated; errors are exact)
+    \cup If(\/ TgtCand(s, tgt) # {} /\ TgtCand(s, tgt) \subseteq s.inv
+            \/ tgterr \in s.inv
+            \/ \E r \in PlainHeld(s) : /\ s.refs[r].g.r
+                                        /\ \/ s.refs[r].g.e \in s.inv
+                                           \/ s.refs[r].g.e = 0 /\ s.refs[r].gc # {} /\ s.refs[r].gc \subseteq s.inv,
             {"StaleKept"})
     \cup If(open # {}, {"ApiBlocked"})
     \* C10
-    \cup If(\E c \in blk \cap ConsOpen(s) : s.cons[c].kind # "access" /\ (s.cons[c].canc \/ Delivered(s, tgt, tgterr)), {"WaitStuck"})
-    \cup If(\E c \in blk \cap ConsOpen(s) : s.cons[c].kind = "access" /\ (s.cons[c].canc \/ Delivered(s, tgt, tgterr)), {"AccessIdle"})
-    \cup If(\E c \in (incb \cap ConsOpen(s)) \ cbdone : s.cons[c].cbval \in s.inv \/ s.cons[c].canc, {"AccessNotCancelled"})
+    \cup If(\E c \in blk \cap ConsOpen(s) : s.cons[c].kind # "access" /\ (s.cons[c].canc \/ DeliveredSure(s, tgt, tgterr)), {"WaitStuck"})
+    \cup If(\E c \in blk \cap ConsOpen(s) : s.cons[c].kind = "access" /\ (s.cons[c].canc \/ DeliveredSure(s, tgt, tgterr)), {"AccessIdle"})
+    \* (the callback context must be cancelled: every generation its value can stand for is invalidated)
+    \cup If(\E c \in (incb \cap ConsOpen(s)) \ cbdone :
+                (s.cons[c].cbc # {} /\ s.cons[c].cbc \subseteq s.inv) \/ s.cons[c].canc, {"AccessNotCancelled"})
     \cup If(\E c \in DOMAIN s.cons : s.cons[c].must /\ s.cons[c].relcb = 0, {"RelCbMissing"})
 
 \* n: the latest resolver call in flight when the root context was cancelled (0: none)
@@ -284,16 +401,23 @@ PQuiet(s, tgt, tgterr, act, blk, incb, cbdone, open) ==
         n == s.rootc.n
         dropped == ~s.rootc.dirty /\ n # 0 /\ Returned(s2, n) /\ n \notin s2.inv /\ s2.pctx # 0
                    /\ SureHeld(s2) # {} /\ Active(s2) = {} /\ ~Delivered(s2, tgt, tgterr)
-    IN Bad(s2, IF s.rootc.dead THEN harnessOnly \cup If(dropped, {"NotResolved"}) ELSE qb)
+        \* a ResolveWithReleased reference whose released callback has not fired by now (and is not owed
+        \* under every candidate: RelCbMissing above) does not hold an invalidated generation: those
+        \* candidates are struck off (not while liveness is not judged)
+        s3 == IF s.rootc.dead THEN s2
+              ELSE [s2 EXCEPT !.cons = [c \in DOMAIN s2.cons |->
+                       IF s2.cons[c].st = "ok" /\ s2.cons[c].kind = "resolvewr" /\ s2.cons[c].cb
+                          /\ s2.cons[c].relcb = 0 /\ ~s2.cons[c].must
+                       THEN [s2.cons[c] EXCEPT !.cand = @ \ s2.invd] ELSE s2.cons[c]]]
+    IN Bad(s3, IF s.rootc.dead THEN harnessOnly \cup If(dropped, {"NotResolved"}) ELSE qb)
 
 -----------------------------------------------------------------------------
 (* The properties *)
 
 RelOnce == \A n \in Calls(ps) : ps.relc[n] <= 1
 NoOverlap == Cardinality(Active(ps)) <= 1
-\* a value returned by Wait / Resolve / ResolveWithReleased is not released while the caller
-\* holds the reference, unless it was invalidated
-HeldNotRel == \A c \in ConsOk(ps) : ps.cons[c].val \in Calls(ps) /\ ps.relc[ps.cons[c].val] >= 1 => ps.cons[c].val \in (ps.inv \cup ps.minv)
+\* (a value returned by Wait / Resolve / ResolveWithReleased is not released while the caller holds
+\* the reference, unless it was invalidated: "HeldRel", judged by Prune at ret and rel events)
 RelCbOnce == \A c \in DOMAIN ps.cons : ps.cons[c].relcb <= 1
 
 C08Names == {"RelTwice", "RelWhileHeld", "RelUntold", "RelExposed", "ExposedAfterRel", "Leak"}
@@ -305,7 +429,6 @@ Violated ==
     ps.bad
     \cup If(~RelOnce, {"RelTwice"})
     \cup If(~NoOverlap, {"Overlap"})
-    \cup If(~HeldNotRel, {"HeldRel"})
     \cup If(~RelCbOnce, {"RelCbTwice"})
 
 Safe_C08 == Violated \cap C08Names = {}
